@@ -1,15 +1,221 @@
-"""C14I: Mem2Var observer / validator glue (see c14i_part.py)."""
+"""C14I: Mem2Var observer / validator glue (see c14i_part.py).
+
+Mem2Var._process_alloca_var is wrapped: the function before and after, the alloca variable %p, the new variable %x and an
+(untrusted) "definitely stored" certificate are exported and coq/C14I/M2V.v mem2var_check is evaluated by vm_compute."""
 from contextlib import contextmanager
+
+
+def stored_certificate(fe, pname):
+    """blocks at whose entry the cell has certainly been written (greatest fixpoint of the forward must-analysis);
+    mirrors M2V.v: predecessors = blocks whose LAST instruction mentions the block's label"""
+    from vyper.venom.basicblock import IRLabel, IRVariable
+    blocks = fe.blocks
+    n = len(blocks)
+
+    def is_cstore(i):
+        ops = i.operands
+        return (i.opcode == "mstore" and len(ops) == 2 and isinstance(ops[1], IRVariable) and ops[1].value == pname
+                and not (isinstance(ops[0], IRVariable) and ops[0].value == pname) and not i.get_outputs())
+    has_store = [any(is_cstore(i) for i in bb.instructions) for bb in blocks]
+    preds = [[] for _ in range(n)]
+    for q, bb in enumerate(blocks):
+        if bb.instructions:
+            for o in bb.instructions[-1].operands:
+                if isinstance(o, IRLabel) and o.value in fe.lab:
+                    preds[fe.lab[o.value]].append(q)
+    sin = [True] * n
+    if n:
+        sin[0] = False
+    changed = True
+    while changed:
+        changed = False
+        for b in range(1, n):
+            v = all(sin[q] or has_store[q] for q in preds[b])
+            if v != sin[b]:
+                sin[b] = v
+                changed = True
+    return [b for b in range(n) if sin[b]]
+
+
+class _Skip(Exception):
+    pass
 
 
 @contextmanager
 def wrap(obs):
-    yield
+    from vyper.venom.basicblock import IRLiteral
+    from vyper.venom.passes.mem2var import Mem2Var
+    from .c14i_part import FnExport
+    orig = Mem2Var._process_alloca_var
+    obs.m2v_seen = obs.m2v_cand = obs.m2v_not_candidates = 0
+    obs.m2v_stride = getattr(obs, "m2v_stride", 1)
+
+    def proc(self, dfg, alloca_inst, var):
+        rec = None
+        try:
+            fn = self.function
+            # (untrusted, only saves time) allocas the pass cannot promote are not exported: dynamic size or a use by another opcode
+            uses = dfg.get_uses(alloca_inst.output)
+            cand = isinstance(alloca_inst.operands[0], IRLiteral) and all(u.opcode in ("mstore", "mload", "return") for u in uses)
+            obs.m2v_seen += 1
+            skip = False
+            if not cand:
+                obs.m2v_not_candidates += 1
+                skip = True
+            else:
+                obs.m2v_cand += 1
+                if obs.origin and obs.origin.startswith("corpus:") and obs.m2v_stride > 1 and obs.m2v_cand % obs.m2v_stride != 0:
+                    skip = True
+            if skip:
+                raise _Skip()
+            var_ids, foreign = {}, {}
+            fids = {f.name.value: i for i, f in enumerate(fn.ctx.functions.values())} if getattr(fn, "ctx", None) is not None else {}
+            fe = FnExport(fn, var_ids, fids, foreign)
+            size = alloca_inst.operands[0]
+            if fe.ninsts() <= obs.max_insts:
+                rec = {"fn": fn, "name": fn.name.value, "p_name": alloca_inst.output.value, "F": fe.term(), "F_text": fe.text(), "p": fe.v(alloca_inst.output),
+                       "size": size.value if isinstance(size, IRLiteral) else None, "count": self.var_name_count, "var": var_ids, "fids": fids,
+                       "foreign": foreign, "entry_first": fe.entry_first, "S": stored_certificate(fe, alloca_inst.output.value),
+                       "ninsts": fe.ninsts(), "origin": obs.origin}
+            else:
+                obs.skipped_big += 1
+        except _Skip:
+            rec = None
+        except Exception as e:
+            obs.errors.append(f"mem2var export: {type(e).__name__}: {e}")
+        r = orig(self, dfg, alloca_inst, var)
+        if rec is not None:
+            try:
+                fe2 = FnExport(rec["fn"], rec["var"], rec["fids"], rec["foreign"])
+                rec["F2_text"] = fe2.text()
+                rec["promoted"] = rec["F2_text"] != rec["F_text"]
+                if rec["promoted"]:
+                    rec["F2"] = fe2.term()
+                    xname = "%alloca_" + rec["p_name"].removeprefix("%") + "_" + str(rec["count"])
+                    if xname not in rec["var"]:
+                        rec["var"][xname] = len(rec["var"])
+                    rec["x"] = rec["var"][xname]
+                    rec["x_name"] = xname
+                del rec["fn"], rec["var"]
+                obs.m2v.append(rec)
+            except Exception as e:
+                obs.errors.append(f"mem2var export (after): {type(e).__name__}: {e}")
+        return r
+    Mem2Var._process_alloca_var = proc
+    try:
+        yield
+    finally:
+        Mem2Var._process_alloca_var = orig
+
+
+def m2v_expr(rec):
+    s = "[" + "; ".join(f"{b}%nat" for b in rec["S"]) + "]"
+    return (f"[if mem2var_domain {rec['F']} {rec['p']}%N {rec['x']}%N then 1 else 0; "
+            f"if mem2var_check {rec['F']} {rec['p']}%N {rec['x']}%N {s} {rec['F2']} then 1 else 0]")
 
 
 def run_families(obs, fams, ctx):
-    pass
+    from vyper.venom.analysis import IRAnalysesCache
+    from vyper.venom.parser import parse_venom
+    from vyper.venom.passes.mem2var import Mem2Var
+    obs.m2v_inputs = {}
+    for k, pr in enumerate(fams):
+        obs.origin = f"family:{pr['name']}#{k}"
+        obs.m2v_inputs[obs.origin] = (pr["inputs"], pr["text"])
+        try:
+            vctx = parse_venom(pr["text"])
+            for fn in vctx.functions.values():
+                Mem2Var(IRAnalysesCache(fn), fn).run_pass()
+            obs.m2v_after = getattr(obs, "m2v_after", {})
+            obs.m2v_after[obs.origin] = {f.name.value: str(f) for f in vctx.functions.values()}
+        except Exception as e:
+            ctx.violation("failing-input", f"Mem2Var raises {type(e).__name__} on a well-formed hand-written function",
+                          {"venom": pr["text"], "error": str(e)[:300]}, key="c14i:m2v:exception:" + type(e).__name__)
+
+
+def search_m2v(ctx, obs, rec):
+    """differential run (Coq Venom semantics of the pass-level part) of the hand-written context before / after Mem2Var"""
+    if rec["origin"] not in getattr(obs, "m2v_inputs", {}):
+        return None
+    inputs, text = obs.m2v_inputs[rec["origin"]]
+    try:
+        from vyper.venom.parser import parse_venom
+        from vlib import c14_pass_sem as SEM
+        before = {f.name.value: str(f) for f in parse_venom(text).functions.values()}
+        after = obs.m2v_after[rec["origin"]]
+        res = SEM.context_differential(before, after, inputs, top="main", tag="c14im")
+        for i, j, code, why in res:
+            if code == 2:
+                return {"input": inputs[i], "observations": str(why)[:1500], "context_before": before, "context_after": after}
+        stuck = [(i, why) for i, j, code, why in res if code == 1]
+        if stuck:
+            ref = SEM.context_differential(before, before, inputs, top="main", tag="c14im")
+            fine = {i for i, j, code, why in ref if code == 0}
+            for i, why in stuck:
+                if i in fine:
+                    return {"input": inputs[i], "context_before": before, "context_after": after,
+                            "observations": "the function before the pass runs to completion in the Coq Venom semantics, after the pass it gets stuck (" + str(why)[:300] + ")"}
+        return {"not_comparable": [str(w)[:200] for _, _, c, w in res if c == 1][:3]}
+    except Exception as e:
+        ctx.log(f"c14i m2v search failed: {type(e).__name__}: {str(e)[:200]}")
+        return None
 
 
 def report(ctx, obs, quick, rnd):
-    return 0
+    from .c14i_part import evaluate
+    from .common import COQ
+    recs = obs.m2v
+    stats = {"allocas_seen": obs.m2v_seen, "not_candidates": obs.m2v_not_candidates, "candidates": obs.m2v_cand, "sampling_stride_corpus": obs.m2v_stride,
+             "exported": len(recs), "promoted": sum(1 for r in recs if r["promoted"]), "accepted": 0, "rejected": 0, "unsupported": 0,
+             "not_promoted": sum(1 for r in recs if not r["promoted"]), "unsupported_reasons": {},
+             "family_promotions": 0, "corpus_promotions": 0}
+    prom = [r for r in recs if r["promoted"]]
+    cap = 60 if quick else 100000
+    if len(prom) > cap:
+        fam = [r for r in prom if r["origin"].startswith("family:")]
+        rest = sorted([r for r in prom if not r["origin"].startswith("family:")], key=lambda r: -r["ninsts"])
+        keep = max(0, cap - len(fam))
+        prom = fam + rest[:keep // 2] + rnd.sample(rest[keep // 2:], min(len(rest) - keep // 2, keep - keep // 2))
+    stats["checked"] = len(prom)
+    found = False
+    if prom and (COQ / "C14I" / "M2V.vo").exists():
+        try:
+            res = evaluate([m2v_expr(r) for r in prom], "c14i_m2v", shard=max(4, len(prom) // 6 + 1), timeout=900)
+        except RuntimeError as e:
+            res = []
+            ctx.violation("correspondence-broken", "the mem2var validator could not be evaluated on the exported promotions", {"error": str(e)[-1500:]})
+        rejected = []
+        for r, v in zip(prom, res):
+            stats["family_promotions" if r["origin"].startswith("family:") else "corpus_promotions"] += 1
+            if len(v) >= 2 and v[1] == 1:
+                stats["accepted"] += 1
+            elif r["size"] != 32 or not r["entry_first"]:
+                stats["unsupported"] += 1
+                why = "alloca size is not 32" if r["size"] != 32 else "entry block is not the first block"
+                stats["unsupported_reasons"][why] = stats["unsupported_reasons"].get(why, 0) + 1
+            else:
+                # a promoted 32-byte alloca that the validator does not accept: pointer used elsewhere (escape), a read that is not
+                # preceded by a write on every path, or an output that is not the specified rewrite
+                stats["rejected"] += 1
+                r["in_domain"] = bool(v and v[0] == 1)
+                rejected.append(r)
+        rejected.sort(key=lambda r: (not r["origin"].startswith("family:"), r["ninsts"]))
+        pending = []
+        for r in rejected[:6]:
+            hit = search_m2v(ctx, obs, r)
+            detail = {"origin": r["origin"], "function": r["name"], "alloca": r["p_name"], "new_variable": r.get("x_name"), "in_validator_domain": r["in_domain"],
+                      "stored_certificate_blocks": r["S"], "before": r["F_text"][:6000], "after": r["F2_text"][:6000]}
+            if hit and "input" in hit:
+                found = True
+                ctx.violation("failing-input", "Mem2Var changes the behaviour of the function: it promoted an alloca that mem2var_check does not accept "
+                              "(address used other than as the address of a full-word mload/mstore/return, or a read not preceded by a write, or "
+                              "a wrong rewrite) and the function behaves differently on this input", dict(detail, **hit),
+                              key=("C14I:mem2var-pointer-stored-as-value" if ("escape_store" in r["origin"] or "escape_retsize" in r["origin"]) else "c14i:m2v:" + r["origin"].split("#")[0]))
+                break
+            pending.append(dict(detail, theorem="mem2var_check_sound (mem2var_check = false for a promoted alloca of size 32)", search=hit))
+        if not found:
+            for d_ in pending[:2]:
+                ctx.violation("theorem-broken", "mem2var_check_sound does not apply: Mem2Var promoted an alloca whose accesses are not all full-word "
+                              "mload / mstore / return at its base (or a read is not dominated by a write, or the rewrite is not the specified one)", d_)
+    ctx.corr["mem2var"] = stats
+    return stats["accepted"]
